@@ -79,6 +79,10 @@ def run(tier, seed):
     if not ck.ground('C19.exit', 'after 256 iterations the loop exits on a concrete counter (no scalar-dependent early exit) and the suffix is straight-line', len(ex_paths) == 1 and len(r.paths) == 2):
         failures.append('exit')
     ck.extra['loops_unrolled'] = r.loops
+    # the schedule of a call must not depend on earlier calls either: Multiply keeps nothing in package-level state
+    gw = [(r_.id, w['label'], w['at']) for r_ in runs for p in r_.paths for w in p.get('writes', []) if w.get('tag') == 'Global']
+    if not ck.ground('C19.pkgstate', 'no path of Multiply (prefix, any iteration, suffix) writes package-level state', not gw, str(gw[:2])):
+        failures.append('pkgstate')
     if failures and not ck.violations:
         d, ov, n = instr.instrument_field()
         try:
